@@ -85,6 +85,8 @@ def stream_eval_mtx(R, tier, seed):
     for kind in _kinds():
         for (nx, ny) in (sizes if kind != "full" else [s for s in sizes if s[1] % 2 == 1]):
             for ground in ((False, True) if kind != "full" else (False,)):
+                if (nx - 1) * (ny - 1) > (12 if ground else 18):
+                    continue        # the lattice is evaluated inside Coq entry by entry: larger ones took over 25 CPU-minutes each
                 mesh0 = gen.rand_mesh(rng, nx, ny, kind)
                 if ground:
                     mesh0 = mesh0 - [0, 0, mesh0[:, :, 2].min()]        # keep the geometry above the plane through the origin offset h
